@@ -27,7 +27,9 @@ def run_mc(rep: Report, ctx):
                 # regressions the model must be able to express (non-vacuity): the three defects found by this check
                 ("regress-commit-spins", "ConsumerComps", "TRUE", "FALSE", "TRUE", "FALSE", "TRUE", "StopTerminates"),
                 ("regress-cancel-escapes", "ConsumerComps", "TRUE", "FALSE", "TRUE", "TRUE", "FALSE", "StopReturnsNormally"),
-                ("finding-idempotent-flush", "ProducerComps", "FALSE", "FALSE", "FALSE", "TRUE", "TRUE", "StopTerminates")]
+                ("finding-idempotent-flush", "ProducerComps", "FALSE", "FALSE", "FALSE", "TRUE", "TRUE", "StopTerminates"),
+                # open finding C19-no-leave-after-connection-closed-at-stop: expressible, and LeftIfReachable fails exactly there
+                ("finding-no-leave-after-connloss", "ConsumerComps", "TRUE", "FALSE", "TRUE", "TRUE", "TRUE", "LeftIfReachable")]
     for name, comps, auto, static, flush, gives, swallow, expect in variants:
         kind = "producer" if comps == "ProducerComps" else ("assign" if name == "assign" else "consumer")
         p = tlc.SPEC / f"_gen_life_{name}_{os.getpid()}.cfg"
@@ -41,6 +43,7 @@ CONSTANTS
   FlushBounded = {flush}
   CommitGivesUp = {gives}
   SwallowCancel = {swallow}
+  ConnLossAtClose = {"TRUE" if name == "finding-no-leave-after-connloss" else "FALSE"}
 INVARIANT TypeOK
 INVARIANT NothingLeft
 INVARIANT StopReturnsNormally
